@@ -299,6 +299,7 @@ func (s *Sorts) sortOf(t types.Type) string {
 }
 
 func (s *Sorts) structOf(t types.Type) *structInfo {
+	t = types.Unalias(t) // `type A = pkg.B` is pkg.B
 	if si, ok := s.byType[t]; ok {
 		return si
 	}
